@@ -114,3 +114,18 @@ def add_mid_run_edit(p, frac=0.3):
         if p["ensemble"] in ("isobaric", "isotension") and r2.random() < 0.6:
             p["mid_run_edit"]["cell"] = r2.choice([0.96875, 1.0625])
     return p
+
+
+def relocate_program(rng, k):
+    """a grand-canonical table with a RELOCATION move: a plain composite that deletes one particle and then inserts one (two exchange parts with
+    bias 0 and 1).  The shipped bookkeeping undoes that order correctly (Props/C03.v, C03_reject_restores_general)."""
+    p = gen_program(rng, k, ensembles=("gc",), multi_insert=False)
+    e = next(m["expr"] for m in p["moves"] if m["name"] == "e")
+    d0 = p["moves"][0]["expr"]
+    p["leaves"][e]["bias"] = 0.0
+    p["leaves"].append(dict(p["leaves"][e], bias=1.0))
+    e2 = len(p["leaves"]) - 1
+    p["moves"] = [{"name": "relocate", "expr": ["plain", e, e2], "probability": 2.0}, {"name": "d", "expr": d0, "probability": 1.0},
+                  {"name": "e", "expr": e2, "probability": 1.0}]
+    p["max_cycles"] = 2
+    return p
